@@ -36,7 +36,7 @@ def one_trace(rng, tid, prop):
         fam = rng.choice(["sum", "sum", "prod", "cumsum", "mean", "diff", "ediff1d", "inner", "outer", "matmul", "matmul", "det"])
         if fam in ("sum", "prod", "mean"):
             shape = rng.choice(SHAPES if fam != "prod" else [s for s in SHAPES if int(numpy.prod(s)) <= 6])
-            a = rec.new(small_poly(rng, shape, names, kind))
+            a = gen.maybe_view(rec, rng, rec.new(small_poly(rng, shape, names, kind)), 0.2)
             nd = len(shape)
             c = rng.random()
             if c < 0.25:
